@@ -577,7 +577,7 @@ func checkC08() fw.Check {
 			cases = append(cases, fw.Case{ID: "C08/sack-silent-target", Run: func(c *fw.Ctx) { runC08SackSilentTarget(c, c.ID) }})
 			wins := []window{{1, 6}}
 			if tier == "thorough" {
-				wins = []window{{1, 6}, {250, 255}, {1, 30}}
+				wins = append([]window{{1, 6}, {250, 255}, {1, 30}}, thoroughWindows(seed, 6)[len(windowsThorough):]...)
 			}
 			for _, v := range refmatch.Variants {
 				for _, nb := range netBehaviours() {
@@ -612,7 +612,7 @@ func checkC08() fw.Check {
 			rr := rand.New(rand.NewSource(seed))
 			nrand := 100
 			if tier == "thorough" {
-				nrand = 1500
+				nrand = 5000
 			}
 			for i := 0; i < nrand; i++ {
 				instants = append(instants, time.Duration(rr.Int63n(int64(3400*time.Millisecond))))
@@ -636,7 +636,7 @@ func checkC08() fw.Check {
 			}
 			n := 60
 			if tier == "thorough" {
-				n = 3000
+				n = 9000
 			}
 			for i := 0; i < n; i++ {
 				cases = append(cases, fw.Case{ID: fmt.Sprintf("C08/publicip/%d", i), Bubble: true, Run: func(c *fw.Ctx) { runC08PublicIP(c, c.ID, c.Rng) }})
